@@ -36,7 +36,7 @@ CONFIG_BUDGET_S = {'quick': 300, 'thorough': 3000}
 def configs(tier):
     quick = tier == 'quick'
     out = []
-    idlists = [[0], [3], [0, 1], [3, 0], [1, 3, 0], [0, 1, 3], None]
+    idlists = [[0], [3], [0, 1], [3, 0], [1, 3, 0], [0, 1, 3], None, [200, 3]]     # last: sparse, non-ascending ids
     if not quick:
         idlists += [[4, 1], [3, 1, 0], [0, 4, 1, 3]]
     N = 4 if quick else 6
@@ -45,6 +45,8 @@ def configs(tier):
             nid = 3 if ids is None else len(ids)
             if quick:
                 if n == 4 and not (ids in ([0], [3, 0])):
+                    continue
+                if ids == [200, 3] and n > 3:
                     continue
             else:
                 if n == 4 and nid > 2 and ids is not None and ids != [1, 3, 0]:
